@@ -79,7 +79,7 @@ def failing_edges(body, call_nid, value):
     for s in A.switches(body):
         info = A.switch_info(body, s)
         root = info.root
-        if root.k == "bin" and root.extra in ("Eq", "Ne", "Lt", "Le", "Gt", "Ge"):
+        if root.k == "bin" and root.extra in ("Eq", "Lt"):
             a, b = root.a
             av = _int_or_call(a, call_nid, value)
             bv = _int_or_call(b, call_nid, value)
@@ -350,11 +350,11 @@ def check_ack(ctx):
             fpd = ctx.sites(body, R.call("write_buffer::flush_pending_deletions"), inst, floor=2)
             R.dom(ctx, inst, body, fpd, ok_true, "Ok(true) retry arm only after retirements were flushed", a_desc="flush_pending_deletions")
             def rel_changed(e):
-                return e.k == "bin" and e.extra in ("Ne", "Eq") and e.has_field("RetirementQueue", "released_sectors")
+                return e.k == "bin" and e.extra == "Eq" and e.has_field("RetirementQueue", "released_sectors")
             edges = []
             for s in A.pred_switches(body, rel_changed):
                 info = A.switch_info(body, s)
-                want = "true" if info.root.extra == "Ne" else "false"
+                want = "false"
                 edges += [(s, l) for l, v in info.edge_vals.items() if v == want]
             R.guard(ctx, inst, body, ok_true, edges, "Ok(true) retry arm only when released_sectors changed")
 
